@@ -270,3 +270,7 @@ mod tests {
         assert!(server.await.is_ok());
     }
 }
+
+#[cfg(all(test, pendulum_project_ntpd_rs_verif))]
+#[path = "/verif/harness/ntpd/probe_spawn_nts.rs"]
+pub(crate) mod verif_probe;
